@@ -533,13 +533,22 @@ def sched_progress(ctx, which=(FB, FF)):
                     first_use = st
                     break
         res[M.kind] = guard is not None
-        ctx.ob('SCHED-PROGRESS', guard is not None, None,
-               'progress guard directly after searchsorted', f=f,
-               node=(guard or first_use or (ndef[0] if ndef else M.loop)), key='guard',
-               why='no progress guard (`if n == c: n += 1`) between searchsorted and the '
+        late = [st for st in body if _progress_guard(M, st)] if guard is None else []
+        if late:
+            why = ('the new cursor %s is read by `%s` before the progress guard (line %d) '
+                   'adjusts it: that read sees a value different from the one committed, so '
+                   'the quantity derived from it (time of the interval end, step length) does '
+                   'not belong to the rows that are propagated (zero-length step when the '
+                   'guard fires)' % (M.n, norm_text(first_use)[:60], late[0].lineno))
+        else:
+            why = ('no progress guard (`if n == c: n += 1`) between searchsorted and the '
                    'first use of the new cursor: when min(time + step, next epoch) lies '
                    'before the next sample, n == c and the loop never advances '
                    '(non-termination) or repeats a row')
+        ctx.ob('SCHED-PROGRESS', guard is not None, None,
+               'progress guard directly after searchsorted, before any read of the new cursor',
+               f=f, node=(guard or first_use or (ndef[0] if ndef else M.loop)), key='guard',
+               why=why)
         # loop condition depends on the cursor / on state advanced by the consumed slice
         t = norm_text(M.loop.test)
         if M.kind == 'feedforward':
